@@ -65,7 +65,8 @@ impl PathFetcher for Fetcher {
 
 // ---------------------------------------------------------------- scenario
 #[derive(Clone, Debug)]
-struct WSpec { kind: u8, wave: u8, pre_yields: u32, pre_sleep_us: u64, timeout_us: u64, far_future: bool } // kind: 0 path_wait, 1 cached_path, 2 path_timeout
+struct WSpec { kind: u8, wave: u8, pre_yields: u32, pre_sleep_us: u64, timeout_us: u64, far_future: bool,
+               after_quit: Option<u32> } // after_quit: spin until a worker has quit, then that many more yields // kind: 0 path_wait, 1 cached_path, 2 path_timeout
 #[derive(Clone, Debug)]
 struct Scenario {
     name: String,
@@ -133,8 +134,19 @@ async fn drive(sc: Scenario, sink: Arc<vt::Sink>) -> Outcome {
             if w.wave != wave { continue; }
             let m = mgr.clone();
             let w = w.clone();
+            let sk = sink.clone();
             let fut = vt::ACTOR.scope(i as u64 + 1, async move {
                 pre_delay(w.pre_yields, w.pre_sleep_us).await;
+                if let Some(extra) = w.after_quit {
+                    // arrive while a worker is in its exit sequence: watch the trace for the first Quit
+                    let t0 = std::time::Instant::now();
+                    loop {
+                        if sk.events.lock().unwrap().iter().any(|e| e.kind == vt::Kind::Quit) { break; }
+                        if t0.elapsed() > Duration::from_secs(2) { break; }
+                        tokio::task::yield_now().await;
+                    }
+                    for _ in 0..extra { tokio::task::yield_now().await; }
+                }
                 // `now` is the caller's: one day ahead every path the fetcher returns is expired
                 let now = SystemTime::now() + Duration::from_secs(if w.far_future { 86_400 } else { 0 });
                 if w.kind == 0 {
@@ -210,6 +222,8 @@ fn run_scenario(sc: &Scenario) -> Outcome {
     let (perturb, mt) = (sc.perturb, sc.threads > 0);
     let pause: Box<dyn Fn(u32) -> u32 + Send + Sync> = Box::new(move |k| {
         if perturb == 0 { return 0; }
+        // systematic mode: perturb = 1000 + code, digit k-1 (base 3) of code = yields at pause point k
+        if perturb >= 1000 { return ((perturb - 1000) / 3u32.pow(k.saturating_sub(1).min(7))) % 3; }
         // scripted modes: 3 = callers slow between their steps, 4 = worker slow while exiting, 5 = both
         if perturb == 3 { return if k == 2 || k == 4 { 5 } else { 0 }; }
         if perturb == 4 { return if k == 7 || k == 8 { 5 } else { 0 }; }
@@ -340,6 +354,7 @@ fn gen_random(r: &mut Rng, idx: usize, mt_share: u64) -> Scenario {
             kind: *r.pick(&[0u8, 0, 0, 0, 1, 1, 2, 2]),
             timeout_us: *r.pick(&[0u64, 100, 500, 2000, 8000, 50_000]),
             far_future: expired_mode() && r.chance(1, 8),
+            after_quit: None,
             wave: if two_waves && r.chance(2, 5) { if three_waves && r.chance(1, 2) { 2 } else { 1 } } else { 0 },
             pre_yields: r.below(6) as u32,
             pre_sleep_us: if r.chance(1, 3) { r.below(4000) } else { 0 },
@@ -371,7 +386,7 @@ fn gen_random(r: &mut Rng, idx: usize, mt_share: u64) -> Scenario {
 fn expired_mode() -> bool { std::env::var("VERIF_C20_EXPIRED").as_deref() == Ok("1") }
 
 fn gen_directed(seed: u64) -> Vec<Scenario> {
-    let w = |kind, wave, y| WSpec { kind, wave, pre_yields: y, pre_sleep_us: 0, timeout_us: 1500, far_future: false };
+    let w = |kind, wave, y| WSpec { kind, wave, pre_yields: y, pre_sleep_us: 0, timeout_us: 1500, far_future: false, after_quit: None };
     let a = |res, yields, sleep_ms| Ans { res, yields, sleep_ms };
     let base = |name: &str, threads, waiters: Vec<WSpec>, answers: Vec<Ans>| Scenario {
         name: name.into(), threads, waiters, answers, idle_ms: 10_000, refetch_ms: 60_000, gap_ms: [0, 0, 0],
@@ -408,6 +423,15 @@ fn gen_directed(seed: u64) -> Vec<Scenario> {
         let mut s = base("stale-exit-removes-successor", threads, vec![w(0, 0, 0), w(0, 1, 0), w(0, 2, 0), w(1, 2, 1)], vec![a(0, 1, 0)]);
         s.idle_ms = 12; s.stop_in_wave = [Some((40, 0)), None, None]; s.gap_ms = [0, 2, 32]; s.final_wait_ms = 5;
         v.push(s);
+        // callers arriving exactly while the worker runs its idle exit (they watch the trace for
+        // the worker's Quit and then enter the manager 0..9 yields later; the worker is slowed
+        // down at its two pause points inside the exit sequence)
+        for (mode, res) in [(4u32, 2u8), (5, 3), (4, 0)] {
+            let mut s = base(&format!("arrive-during-idle-exit-m{mode}-r{res}"), threads, vec![w(0, 0, 0)], vec![a(res, 1, 0), a(0, 1, 1)]);
+            for k in 0..10u32 { let mut x = w(if k % 5 == 4 { 1 } else { 0 }, 0, 0); x.after_quit = Some(k); s.waiters.push(x); }
+            s.idle_ms = 12; s.perturb = mode;
+            v.push(s);
+        }
         // drop while a lookup started by cached_path is still running
         v.push(base("drop-during-lookup", threads, vec![w(1, 0, 0), w(1, 0, 1)], vec![a(0, 3, 15)]));
         // callers that give up (path_timeout) around the completion of a slow lookup
@@ -447,6 +471,29 @@ fn gen_directed(seed: u64) -> Vec<Scenario> {
     v
 }
 
+/// systematic sweep on the current-thread runtime: no sleeps, no timeouts, so the schedule is a
+/// function of the yield vector at the 8 pause points, the moment of stop_managing_paths and
+/// the callers' own pre-yields -- all taken from `code`
+fn gen_sweep(code: u64, seed: u64) -> Scenario {
+    let vec = (code % 6561) as u32;
+    let stop_y = ((code / 6561) % 7) as u32;          // 6 = no stop
+    let variant = (code / (6561 * 7)) % 4;
+    let w = |kind, wave, y| WSpec { kind, wave, pre_yields: y, pre_sleep_us: 0, timeout_us: 0, far_future: false, after_quit: None };
+    let answers = match variant {
+        0 => vec![Ans { res: 3, yields: 2, sleep_ms: 0 }, Ans { res: 0, yields: 1, sleep_ms: 0 }],
+        1 => vec![Ans { res: 0, yields: 3, sleep_ms: 0 }, Ans { res: 1, yields: 0, sleep_ms: 0 }],
+        2 => vec![Ans { res: 2, yields: 0, sleep_ms: 0 }, Ans { res: 0, yields: 2, sleep_ms: 0 }],
+        _ => vec![Ans { res: 1, yields: 5, sleep_ms: 0 }, Ans { res: 3, yields: 1, sleep_ms: 0 }],
+    };
+    Scenario {
+        name: format!("sweep-{code}"), threads: 0,
+        waiters: vec![w(0, 0, 0), w(0, 0, 1), w(1, 0, 2), w(0, 0, 3), w(0, 0, 6), w(1, 0, 9)],
+        answers, idle_ms: 10_000, refetch_ms: 60_000, gap_ms: [0, 0, 0],
+        stop_in_wave: [if stop_y < 6 { Some((stop_y * 2, 0)) } else { None }, None, None],
+        final_wait_ms: 0, perturb: 1000 + vec, seed,
+    }
+}
+
 fn main() {
     vcommon::silence_panics();
     let out = arg("--out").expect("--out");
@@ -455,6 +502,10 @@ fn main() {
     let mut r = Rng::new(seed ^ 0xC20);
     let mut scenarios = gen_directed(seed);
     let mut idx = 0;
+    // a quarter of the remaining budget: systematic sweep (distinct codes), the rest random
+    let n_sweep = n.saturating_sub(scenarios.len()) / 4;
+    let mut codes: HashSet<u64> = HashSet::new();
+    while codes.len() < n_sweep { let c = r.below(6561 * 7 * 4); if codes.insert(c) { scenarios.push(gen_sweep(c, seed)); } }
     while scenarios.len() < n { scenarios.push(gen_random(&mut r, idx, 40)); idx += 1; }
     scenarios.truncate(n.max(1));
 
@@ -483,6 +534,7 @@ fn main() {
         let t = translate(&o.events);
         let strict = sc.threads == 0;
         sum.count(if strict { "runtime.current_thread" } else { "runtime.multi_thread" });
+        sum.count(&format!("family.{}", if sc.name.starts_with("rand") { "random" } else if sc.name.starts_with("sweep-") { "systematic_sweep" } else if sc.name.starts_with("stop-sweep") { "stop_sweep" } else { "directed" }));
         sum.count(&format!("callers.{}", sc.waiters.len().min(9)));
         sum.add("events", o.events.len() as u64);
         sum.add("workers_spawned", t.nps as u64);
@@ -568,7 +620,7 @@ fn main() {
         outcomes.insert(oc_key);
         let line = format!("{} {} callers={:?} answers={:?} idle={}ms refetch={}ms gaps={:?}ms stop={:?} final_wait={}ms perturb={} seed={} hung={} exited_all={} {} results={:?} trace: {}",
             sc.name, if strict { "ct".to_string() } else { format!("mt{}", sc.threads) },
-            sc.waiters.iter().map(|w| format!("{}{}y{}{}", ["p", "c", "t"][w.kind as usize], w.wave, w.pre_yields, if w.far_future { "F" } else { "" })).collect::<Vec<_>>(),
+            sc.waiters.iter().map(|w| format!("{}{}y{}{}{}", ["p", "c", "t"][w.kind as usize], w.wave, w.pre_yields, if w.far_future { "F" } else { "" }, w.after_quit.map(|k| format!("q{k}")).unwrap_or_default())).collect::<Vec<_>>(),
             sc.answers.iter().map(|a| format!("{}y{}s{}", ["ok", "empty", "notfound", "err"][a.res as usize], a.yields, a.sleep_ms)).collect::<Vec<_>>(),
             sc.idle_ms, sc.refetch_ms, sc.gap_ms, sc.stop_in_wave, sc.final_wait_ms, sc.perturb, sc.seed, o.hung, o.exited_all,
             if t.ok { String::new() } else { format!("UNTRANSLATABLE({})", t.why) }, o.results, tr_short);
